@@ -16,3 +16,6 @@ def run(ctx, rep):
     more3.rule_sched_take(mod, rep)
     more3.rule_worker_loop(mod, rep)
     more3.rule_queue_order(mod, rep)
+    from ..rules import more4
+    more4.rule_release_range(mod, rep)
+    more4.rule_relaxed_whole(mod, rep)
